@@ -37,6 +37,11 @@ func WriteBlockTo(enc *StrListEncoder, w io.Writer, blk [][]string) (int64, erro
 		panic(fmt.Errorf("block length is too long (%d > 4294967296)", n))
 	}
 	binary.BigEndian.PutUint32(b, uint32(n))
+	for i, line := range blk {
+		if err := CheckStrLens(line); err != nil {
+			return 0, fmt.Errorf("row %d: %v", i, err)
+		}
+	}
 	_, err := w.Write(b)
 	if err != nil {
 		return 0, err
